@@ -108,7 +108,7 @@ func spinUntil(t time.Time) {
 	}
 }
 
-var stressModes = []string{"timer", "run-early", "run-early-ifexists", "run-at-ifexists", "run-at", "multi-run-early", "multi-run-at", "cancel-early", "cancel-at", "ctx-early", "ctx-at", "cancel-vs-run", "run-at-and-cancel-at", "overdue-now", "overdue-past"}
+var stressModes = []string{"timer", "run-early", "run-early-ifexists", "run-at-ifexists", "run-at", "multi-run-early", "multi-run-at", "cancel-early", "cancel-at", "ctx-early", "ctx-at", "cancel-vs-run", "run-at-and-cancel-at", "overdue-now", "overdue-past", "run-early-dead-context"}
 
 var forcedModes = []string{"F1-run-at-timer", "F2-run-at-timer-unclaimed", "F3-cancel-at-timer", "F4-run-and-cancel-in-run-branch", "F5-timer-during-runjob", "F7-timer-during-cancel", "F8-double-run-at-timer"}
 
@@ -164,6 +164,23 @@ func launch(s *advanced.Service, r *rand.Rand, name, mode string, wg *sync.WaitG
 	case "run-early":
 		sched(far)
 		bg(func() { doRun(s, js) })
+	case "run-early-dead-context":
+		// the caller's context has already ended when it asks for the run (a job that outlived its slot): the request is
+		// either carried out or refused, never half done
+		sched(far)
+		bg(func() {
+			dead, cancelDead := context.WithCancel(context.Background())
+			cancelDead()
+			if err := s.RunJob(dead, js.name); err == nil {
+				js.runNil.Add(1)
+			} else {
+				js.mu.Lock()
+				js.runErr = append(js.runErr, errName(err))
+				js.mu.Unlock()
+				// refused: the job is still there and can be started properly
+				doRun(s, js)
+			}
+		})
 	case "run-early-ifexists":
 		sched(far)
 		bg(func() { s.RunJobIfExists(context.Background(), js.name); js.runNil.Add(1) }) // the job exists, so this must start it
@@ -549,6 +566,102 @@ func periodicCancelInsideRun(c *harness.Ctx, s *advanced.Service) {
 	}
 }
 
+// periodicWhileRunning: things that happen while an instance of a periodic job is executing (when the job is marked as
+// under way): cancellation by prefix, a run-now request whose context has ended, an attempt to schedule the name again.
+func periodicWhileRunning(c *harness.Ctx, s *advanced.Service) {
+	n := c.N(30, 900)
+	for i := 0; i < n; i++ {
+		action := []string{"cancel-by-prefix", "run-now-with-dead-context", "schedule-same-name"}[i%3]
+		id := fmt.Sprintf("periodic-while-running%d/%s", i, action)
+		c.Case(id, func() {
+			r := c.Rand("pwr", i)
+			prefix := fmt.Sprintf("pw%d-%d", c.Batch, i)
+			name := prefix + "-job"
+			js := &jobState{name: name, mode: "periodic-while-running", exit: make(chan struct{}), forced: map[string]func(*jobState){}}
+			registry.Store(name, js)
+			defer registry.Delete(name)
+			period := time.Duration(8+r.Intn(8)) * time.Millisecond
+			work := time.Duration(4+r.Intn(4)) * time.Millisecond
+			var started, inflight, maxInflight atomic.Int32
+			running := make(chan struct{}, 1024)
+			fn := func(context.Context) {
+				v := inflight.Add(1)
+				for {
+					m := maxInflight.Load()
+					if v <= m || maxInflight.CompareAndSwap(m, v) {
+						break
+					}
+				}
+				started.Add(1)
+				select {
+				case running <- struct{}{}:
+				default:
+				}
+				time.Sleep(work)
+				inflight.Add(-1)
+			}
+			next := func(context.Context) (time.Time, error) { return time.Now().Add(period), nil }
+			if err := s.SchedulePeriodicJob(context.Background(), "verif", name, next, fn); err != nil {
+				c.Violate("periodic-schedule-rejected", err.Error(), id, nil)
+				return
+			}
+			// wait for the second instance to be executing
+			for k := 0; k < 2; k++ {
+				select {
+				case <-running:
+				case <-time.After(10 * time.Second):
+					c.Violate("periodic-too-few-ticks:while-running", "a periodic job did not run two instances in 10 s", id, nil)
+					_ = s.CancelJob(context.Background(), name)
+					return
+				}
+			}
+			detail := map[string]any{"action": action, "period_ms": period.Milliseconds(), "work_ms": work.Milliseconds()}
+			switch action {
+			case "cancel-by-prefix":
+				s.CancelJobs(context.Background(), prefix)
+				at := started.Load()
+				time.Sleep(6 * period)
+				detail["instances_started_when_cancelled"], detail["instances_started_in_the_end"] = at, started.Load()
+				if started.Load() > at+1 {
+					c.Violate("ran-after-cancel:cancel-by-prefix-while-running", fmt.Sprintf("a periodic job cancelled by prefix while an instance was executing went on to start %d more instances", started.Load()-at), id, detail)
+					_ = s.CancelJob(context.Background(), name)
+					return
+				}
+				if s.JobExists(context.Background(), name) {
+					c.Violate("cancelled-job-still-listed:cancel-by-prefix-while-running", "a periodic job cancelled by prefix while an instance was executing is still listed", id, detail)
+					_ = s.CancelJob(context.Background(), name)
+					return
+				}
+			case "run-now-with-dead-context":
+				dead, cancelDead := context.WithCancel(context.Background())
+				cancelDead()
+				err := s.RunJob(dead, name)
+				at := started.Load()
+				time.Sleep(8 * period)
+				detail["run_now_result"], detail["instances_started_at_the_request"], detail["instances_started_in_the_end"] = fmt.Sprint(err), at, started.Load()
+				if started.Load() < at+2 {
+					c.Violate("periodic-stops-after-early-run:dead-context", "a periodic job stopped ticking after a run-now request made with a context that had ended", id, detail)
+				}
+				_ = s.CancelJob(context.Background(), name)
+			default:
+				err := s.SchedulePeriodicJob(context.Background(), "verif", name, next, fn)
+				time.Sleep(6 * period)
+				detail["second_schedule_result"], detail["max_instances_at_once"] = fmt.Sprint(err), maxInflight.Load()
+				if err == nil {
+					c.Violate("duplicate-name-accepted:while-running", "scheduling the name of a periodic job again while one of its instances was executing was accepted", id, detail)
+				}
+				if maxInflight.Load() > 1 {
+					c.Violate("periodic-overlap:while-running", "two instances of one periodic job executed at the same time", id, detail)
+				}
+				_ = s.CancelJob(context.Background(), name)
+				_ = s.CancelJob(context.Background(), name)
+			}
+			c.Count("periodic_while_running_cases", 1)
+			c.Distinct("pwr|" + action)
+		})
+	}
+}
+
 // ---- linearizability of the job table ----
 
 type tblIn struct {
@@ -725,6 +838,7 @@ func run(c *harness.Ctx) {
 	oneOff(c, s)
 	periodic(c, s)
 	periodicCancelInsideRun(c, s)
+	periodicWhileRunning(c, s)
 	tableLin(c, s)
 	// Nothing must be left in the table.
 	if left := s.ListJobs(context.Background()); len(left) > 0 {
